@@ -1,7 +1,7 @@
 """C04 -- termination, exactly-once, no threads left (scheduler model checking, DESIGN 3/C04)"""
 from props.common import *
 
-SCHED_SRCS = ['pxgstrf_scheduler.c', 'pxgstrf_synch.c', 'pxgstrf_relax_snode.c', 'pmemory.c',
+SCHED_SRCS = ['pxgstrf_scheduler.c', 'pxgstrf_synch.c', 'pxgstrf_relax_snode.c', 'pxgstrf_mark_busy_descends.c', 'pmemory.c',
               ('util.c', ['-Dsuperlu_abort_and_exit=real_superlu_abort_and_exit'])]
 
 def forests(n):
